@@ -15,13 +15,32 @@ def has_nullable_container(w):
 def run_cases(ctx, label, cases):
     """cases: (optdefault, W, doc)"""
     rng = ctx.rng
-    mlines, ilines = [], []
+    mlines, ilines, elines, tlines = [], [], [], []
     for od, w, d in cases:
         mlines.append("%d ; %s ; %s" % (1 if od else 0, J.schema_wire(w), J.doc_wire(d)))
         st = J.print_schema(w, rng)
         dt = J.print_doc(d, rng)
         ilines.append(json.dumps({"schema": st, "optional": bool(od), "ops": [["check"], ["validate", dt]]}))
+        elines.append("%d ; %s ; %s" % (1 if od else 0, st.encode().hex() or "-", J.doc_wire(d)))
+        tlines.append("%d ; %s ; %s" % (1 if od else 0, st.encode().hex() or "-", dt.encode().hex() or "-"))
     mod = vc.model_parallel("shape_model", mlines)
+    # the whole pipeline inside Coq, from the schema TEXT: SchemaScanner.scan -> Loader.load -> E2E.w_of_node -> Shape.compile -> Shape.validate
+    e2e = vc.model_parallel("e2e_model", elines)
+    # ... and from BOTH texts: the document text goes through the JSON scanner model and the event-level machine (E2E.validate_texts)
+    e2t = vc.model_parallel("e2e_texts_model", tlines)
+    for (od, w, d), el, tl, il, ev, tv, i in zip(cases, elines, tlines, ilines, e2e, e2t, vc.impl_parallel(["schema"], ilines)):
+        ir = json.loads(i)
+        if len(ir) != 2 or ir[0] != "ok":
+            continue
+        got = "ok" if ir[1] == "ok" else ir[1].split("@")[0]
+        if tv != got and len(ctx.violations) < 40:
+            c = json.loads(il)
+            ctx.report("Validate says %s, the Coq pipeline from BOTH texts (schema scanner, loader, JSON scanner, validator machine) says %s: schema %r document %r" % (ir[1], tv, c["schema"][:160], c["ops"][1][1][:120]),
+                       "c01e2t:" + tl, {"schema": c["schema"], "document": c["ops"][1][1], "implementation": ir[1], "e2e_texts_model": tv, "model_line": tl}, case=(w, d), no_input=True)
+        if ev != got and len(ctx.violations) < 40:
+            c = json.loads(il)
+            ctx.report("Validate says %s, the Coq pipeline from the schema text (scanner, loader, shape validator) says %s: schema %r document %r" % (ir[1], ev, c["schema"][:160], c["ops"][1][1][:120]),
+                       "c01e2e:" + el, {"schema": c["schema"], "document": c["ops"][1][1], "implementation": ir[1], "e2e_model": ev, "model_line": el}, case=(w, d), no_input=True)
     mach = vc.model_parallel("machine_model", mlines)       # the event-level tree of leaf validators (Schema/Machine.v)
     imp = vc.impl_parallel(["schema"], ilines)
     nb = 0
